@@ -323,8 +323,12 @@ func genGL(t *rapid.T, hostile bool) glSpec {
 		if !hostile {
 			st.DSC = rapid.SampledFrom([]string{"0", "1"}).Draw(t, "dsc")
 		}
-		g.Meta.STL = &st
 		g.Meta.STLDates = rapid.Bool().Draw(t, "stldates")
+		if g.Meta.STLDates && rapid.IntRange(0, 3).Draw(t, "zerodates") == 0 {
+			// dates supplied as the zero time (what the STL reader makes of blank date fields): supplied all the same
+			st.CD, st.RD = "", ""
+		}
+		g.Meta.STL = &st
 	}
 	if rapid.IntRange(0, 3).Draw(t, "tsmap") == 0 {
 		g.Meta.TSMap = &vttTSMap{LocalMs: genMs(t, "local"), MpegTS: rapid.Int64Range(0, 1<<33).Draw(t, "mpegts")}
